@@ -224,6 +224,15 @@ def _check(t, prog, target, hk, tk, depth):
             reached = any(c == target or (target == "*") for c in oref.aux.get("proc", ()))
             t.case((prog, target, hk, tk, s), oref.key(), inserted and reached, f"{oref.kind()}", steps=2 * len(s), evaluations=2)
             vs = _judge(prog, target, hk, tk, s, oref, oimp)
+            if vs:
+                # every violation is re-executed (after a full collection) before it is reported
+                import gc
+
+                gc.collect()
+                again = {v[1] for v in _judge(prog, target, hk, tk, s, G.run_script(fa, s), G.run_script(fb, s))}
+                if {v[1] for v in vs} != again:
+                    t.extra["unconfirmed_mismatches"] = t.extra.get("unconfirmed_mismatches", 0) + 1
+                    vs = [v for v in vs if v[1] in again]
             for rule, sig, detail in vs:
                 t.violation(
                     rule,
